@@ -55,7 +55,7 @@ TEMPLATES = [
 ]
 
 PROBES = ["switch_inside_mkdir_window", "crash_between_wrapper_cpp_writes", "torn_nonempty_prefix",
-          "stale_longer_file_overwritten", "wrapper_reused_3x_with_xml_overloads",
+          "stale_longer_file_overwritten", "wrapper_reused_3x_with_xml_overloads", "same_submodule_list_object_passed_again",
           "ascii_locale_nonascii_input", "task_restarted", "shared_matlab_outdir",
           "submodule_stem_with_dot_i", "submodule_h_extension", "cwd_is_source_dir",
           "crash_in_open_write_window", "second_run_over_existing_outputs",
@@ -824,8 +824,14 @@ def _hist_apply(h, wrappers, op):
             if kind == "wrap_file":
                 text = world.files[path].decode("utf-8")
                 sub = op["sub"]
-                ret = wr.wrap_file(text, module_name="m%d" % op["file"],
-                                   submodules=list(sub) if sub is not None else None)
+                if sub is not None:
+                    # the caller keeps ONE list of submodule names and hands the same object to every call,
+                    # as a user script would (`subs = ["a", "b"]` once, then several wrap_file calls)
+                    sub = h.setdefault("_shared_subs", {}).setdefault(tuple(sub), list(sub))
+                    if len(sub) and h["_shared_subs"].get(("used",) + tuple(op["sub"])):
+                        world.probe("same_submodule_list_object_passed_again")
+                    h["_shared_subs"][("used",) + tuple(op["sub"])] = True
+                ret = wr.wrap_file(text, module_name="m%d" % op["file"], submodules=sub)
             elif kind == "wrap":
                 wr.wrap([path], op["out"])
                 ret = None
@@ -841,6 +847,7 @@ def _hist_apply(h, wrappers, op):
 def history_reference(args):
     """(pristine fork) the op alone on a freshly created wrapper"""
     h, i = args
+    h.pop("_shared_subs", None)      # a pristine process has pristine option objects
     W.install_seams()
     _quiet()
     w = W.World(Tape(replay=[]))
